@@ -24,7 +24,9 @@ RULE = ("element matrices of Strain(voigt T/F)/Stress/ElementAverage/ThermoMecha
         "materials, plane strings (tolerance; exact model in Q(sqrt3)); module outputs for random affine fields u = G X + c "
         "(shear-free and general G) and random non-affine u on random grids; generic ElementOperation/NodalOperation with "
         "small-integer element matrices of shapes (K,), (R,K), (R1,R2,K) incl. the repeat-per-dof path (exact); ThermoMechanical "
-        "end-to-end; malformed inputs (error enums). distinct = distinct generated case keys, all non-trivial (nel >= 1)")
+        "end-to-end; malformed inputs (error enums); sens: ElementOperation._sensitivity / NodalOperation._sensitivity with integer "
+        "element matrices, seeds and directions for all operator shapes incl. the repeat path (exact) with the adjoint oracle "
+        "<w, Op(u+v)-Op(u)> = <sens(w), v> on the real code. distinct = distinct generated case keys, all non-trivial (nel >= 1)")
 ASSUMPTIONS = [
     "a fresh module is used per call: element_matrix/dofconn cached inside ElementOperation across calls with a different "
     "number of dofs per node is history (C03), not part of C12",
@@ -634,6 +636,119 @@ def stream_malformed(ctx):
         ctx.compare_exact("malformed", c, impl_err, model_err, key=("malformed", i), nontrivial=True)
 
 
+# ------------------------------------------------------------------------------------------------
+# sensitivities (C01 for this family): ElementOperation._sensitivity / NodalOperation._sensitivity
+# ------------------------------------------------------------------------------------------------
+def run_elemop_sens(g, EM, u, dy, v):
+    """real code: response, sensitivity for the seed dy, and the adjoint pairing with direction v"""
+    pm = _pm()
+    dom = mk_dom(g)
+    su = pm.Signal("u", np.array(u, dtype=float))
+    m = pm.ElementOperation(su, domain=dom, element_matrix=np.array(EM, dtype=float))
+    m.response()
+    y0 = np.array(m.sig_out[0].state, dtype=float)
+    m.sig_out[0].sensitivity = np.array(dy, dtype=float).reshape(y0.shape)
+    m.sensitivity()
+    du = np.array(su.sensitivity, dtype=float)
+    y1 = run_elemop(g, EM, np.asarray(u, dtype=float) + np.asarray(v, dtype=float))
+    lhs = float(np.sum(np.array(dy, dtype=float).reshape(y0.shape) * (y1 - y0)))
+    rhs = float(np.sum(du * np.asarray(v, dtype=float)))
+    return du, y0.shape, lhs, rhs
+
+
+def run_nodalop_sens(g, EM, x, dxseed, v):
+    pm = _pm()
+    dom = mk_dom(g)
+    sx = pm.Signal("x", np.array(x, dtype=float))
+    m = pm.NodalOperation(sx, domain=dom, element_matrix=np.array(EM, dtype=float))
+    m.response()
+    y0 = np.array(m.sig_out[0].state, dtype=float)
+    m.sig_out[0].sensitivity = np.array(dxseed, dtype=float)
+    m.sensitivity()
+    g_x = np.array(sx.sensitivity, dtype=float)
+    y1 = run_nodalop(g, EM, np.asarray(x, dtype=float) + np.asarray(v, dtype=float))
+    lhs = float(np.sum(np.asarray(dxseed, dtype=float) * (y1 - y0)))
+    rhs = float(np.sum(g_x * np.asarray(v, dtype=float)))
+    return g_x, lhs, rhs
+
+
+def stream_sens(ctx):
+    rng = ctx.rng
+    n = 30 if ctx.quick else 300
+    reqs, impls, kinds = [], [], []
+    for t in range(n):
+        g = rand_grid(ctx, small=True)
+        dom = mk_dom(g)
+        en = dom.elemnodes
+        ndof = rng.choice([1, 2, 3])
+        lead = rng.choice([(), (2,), (3,), (2, 2)])
+        repeat = ndof > 1 and rng.random() < 0.4
+        K = en if repeat else en * ndof
+        EM = _rand_int_arr(rng, lead + (K,))
+        R = int(np.prod(lead)) if lead else 1
+        u = _rand_int_arr(rng, (dom.nnodes * ndof,), -4, 4)
+        v = _rand_int_arr(rng, (dom.nnodes * ndof,), -3, 3)
+        rows = ndof * R if repeat else R
+        dy = _rand_int_arr(rng, (rows, dom.nel), -3, 3)
+        base = {"nelx": g["nelx"], "nely": g["nely"], "nelz": g["nelz"], "EM": qlist(EM.reshape(R, K))}
+        gen = {"grid": g, "ndof": ndof, "lead": list(lead), "repeat": repeat, "EM": EM.tolist(), "u": u.tolist(),
+               "v": v.tolist(), "dy": dy.tolist(), "sens": "elemop"}
+        r = call_impl(run_elemop_sens, g, EM, u, dy, v)
+        req = {"m": "c12.elemop_sens", **base, "usize": int(u.size), "dy": qlist(dy), "gen": gen}
+        if r[0] == "err":
+            ctx.disagree("sens", req, r[1], "ok", r[2])
+        else:
+            du, shp, lhs, rhs = r[1]
+            if lhs != rhs:
+                ctx.oracle_fail(f"ElementOperation: <w, Op(u+v) - Op(u)> = {lhs} but <sens(w), v> = {rhs}", {"op": "sens", **gen})
+            reqs.append(req)
+            impls.append(du)
+            kinds.append("elemop")
+            ctx.branch("sens.elemop.repeat" if repeat else f"sens.elemop.lead{len(lead)}")
+        if not repeat:
+            x = _rand_int_arr(rng, lead + (dom.nel,), -4, 4)
+            vx = _rand_int_arr(rng, lead + (dom.nel,), -3, 3)
+            seed = _rand_int_arr(rng, (dom.nnodes * ndof,), -3, 3)
+            gen2 = {"grid": g, "ndof": ndof, "lead": list(lead), "EM": EM.tolist(), "x": x.tolist(), "v": vx.tolist(),
+                    "seed": seed.tolist(), "sens": "nodalop"}
+            r = call_impl(run_nodalop_sens, g, EM, x, seed, vx)
+            req = {"m": "c12.nodalop_sens", **base, "dx": qlist(seed), "gen": gen2}
+            if r[0] == "err":
+                ctx.disagree("sens", req, r[1], "ok", r[2])
+            else:
+                gx, lhs, rhs = r[1]
+                if lhs != rhs:
+                    ctx.oracle_fail(f"NodalOperation: <w, Op(x+v) - Op(x)> = {lhs} but <sens(w), v> = {rhs}", {"op": "sens", **gen2})
+                reqs.append(req)
+                impls.append(gx)
+                kinds.append("nodalop")
+                ctx.branch(f"sens.nodalop.lead{len(lead)}")
+    res = ctx.model([{k: v for k, v in c.items() if k != "gen"} for c in reqs])
+    for i, (c, y, m, kd) in enumerate(zip(reqs, impls, res, kinds)):
+        if "ok" not in m:
+            ctx.disagree("sens", c, np.asarray(y).tolist(), m, "model error")
+            continue
+        if kd == "elemop":
+            ctx.compare_exact("sens", c, [Fraction(v) for v in np.asarray(y, dtype=float).ravel().tolist()], frlist(m["ok"]["du"]),
+                              key=("sens", i))
+        else:
+            yy = [[Fraction(v) for v in r] for r in _flat2(y, m["ok"]["rows"]).tolist()]
+            ctx.compare_exact("sens", c, yy, frlist(m["ok"]["y"]), key=("sens", i))
+    if reqs:
+        ctx.sample({"request": {k: v for k, v in reqs[0].items() if k != "gen"}, "impl_du": np.asarray(impls[0]).tolist()})
+
+
+def oracle_sens(gen):
+    g = gen["grid"]
+    if gen["sens"] == "elemop":
+        _, _, lhs, rhs = run_elemop_sens(g, np.array(gen["EM"]), np.array(gen["u"]), np.array(gen["dy"]), np.array(gen["v"]))
+        name = "ElementOperation"
+    else:
+        _, lhs, rhs = run_nodalop_sens(g, np.array(gen["EM"]), np.array(gen["x"]), np.array(gen["seed"]), np.array(gen["v"]))
+        name = "NodalOperation"
+    return [] if lhs == rhs else [(f"{name}: <w, Op(u+v) - Op(u)> = {lhs} but <sens(w), v> = {rhs}", None)]
+
+
 def correspondence(ctx):
     corpus_witness(ctx)
     stream_em(ctx)
@@ -642,6 +757,7 @@ def correspondence(ctx):
     stream_generic(ctx)
     stream_thermo(ctx)
     stream_malformed(ctx)
+    stream_sens(ctx)
 
 
 # ------------------------------------------------------------------------------------------------
@@ -703,12 +819,16 @@ def _oracle_for(gen, op):
         return oracle_average(gen["grid"], gen["ndof"], np.array(gen["A"], dtype=float), np.array(gen["b"], dtype=float))
     if op == "thermo":
         return oracle_thermo(gen["grid"], gen["mat"], gen["alpha"], gen["x"])
+    if op == "sens":
+        return oracle_sens(gen)
     if op == "transpose":
         return oracle_transpose(gen["grid"], None, gen["ndof"], (np.array(gen["EM"]), np.array(gen["u"]), np.array(gen["y"])))
     return []
 
 
 def _op_of(gen, stream):
+    if "sens" in gen:
+        return "sens"
     if "G" in gen and "mat" in gen:
         return "fields" if gen.get("affine", True) else None
     if "A" in gen:
@@ -769,7 +889,7 @@ def replay(ctx, data):
         nn = w["grid"]["dim"]
         bad = abs(float(y[nn, 0]) - eps[nn]) > 1e-12
         return {"still_failing": bool(bad), "what": f"gamma = {float(y[nn, 0])}, engineering shear {float(eps[nn])}"}
-    if op in ("fields", "average", "thermo", "transpose"):
+    if op in ("fields", "average", "thermo", "transpose", "sens"):
         if op == "fields" and "mat" not in w:
             w = {**w, "mat": {"E": 1.0, "nu": 0.3, "plane": "strain"}}
         r = call_impl(_oracle_for, w, op)
